@@ -775,3 +775,94 @@ func c02PartialAccumulates(c *Ctx, p *Prog, pi *parserInfo, rule string) {
 		c.Check(bad == "", rule, fn.Name()+":partial-accumulates", p.pos(r.Pos()), "the partial answer over all candidates is only ever raised, never overwritten "+bad)
 	}
 }
+
+// checkReadBytesQueued: io.Reader allows a read to return its last bytes together with an error.  In
+// every function that reads from the Tty and queues byte chunks, the send of the bytes read must not
+// be decided by the read's error: no guard that dominates the send depends on the error result, and
+// the slice sent is cut with the read's own count.
+func checkReadBytesQueued(c *Ctx, p *Prog, rule string) {
+	found := 0
+	for _, fn := range p.modFns {
+		if fn.Pkg != p.Tcell {
+			continue
+		}
+		var reads []*ssa.Call
+		eachInstr(fn, func(in ssa.Instruction) {
+			if call, ok := in.(*ssa.Call); ok && call.Call.IsInvoke() && call.Call.Method.Name() == "Read" && strings.HasSuffix(typeName(call.Call.Value.Type()), "Tty") {
+				reads = append(reads, call)
+			}
+		})
+		if len(reads) == 0 {
+			continue
+		}
+		for _, rd := range reads {
+			var nVal, eVal ssa.Value
+			for _, r := range *rd.Referrers() {
+				if ex, ok := r.(*ssa.Extract); ok {
+					if ex.Index == 0 {
+						nVal = ex
+					} else {
+						eVal = ex
+					}
+				}
+			}
+			// sends of byte slices in this function
+			eachInstr(fn, func(in ssa.Instruction) {
+				var sent []ssa.Value
+				switch x := in.(type) {
+				case *ssa.Send:
+					sent = append(sent, x.X)
+				case *ssa.Select:
+					for _, st := range x.States {
+						if st.Dir == types.SendOnly {
+							sent = append(sent, st.Send)
+						}
+					}
+				}
+				for _, v := range sent {
+					sl, ok := v.(*ssa.Slice)
+					if !ok {
+						continue
+					}
+					if _, isBytes := sl.Type().Underlying().(*types.Slice); !isBytes {
+						continue
+					}
+					found++
+					key := fn.Name() + ":bytes-read-are-queued"
+					if nVal == nil || sl.High != nVal {
+						c.Fail(rule, key, p.pos(in.Pos()), "the chunk queued is not cut with the count the read returned ("+valName(sl.High)+")")
+						continue
+					}
+					bad := ""
+					for _, g := range rawGuardsAt(in.Block()) {
+						if eVal != nil && dependsOn(g.Cond, eVal, 4) {
+							bad = "the send is decided by the read's error (" + p.pos(g.Cond.Pos()) + "): bytes returned together with an error are dropped"
+						}
+					}
+					c.Check(bad == "", rule, key, p.pos(in.Pos()), "chunk[:n] is queued whatever error the read reported along with it "+bad)
+				}
+			})
+		}
+	}
+	if found == 0 {
+		c.Undecided(rule, "tty-read:queued", "-", "no function reads the Tty and queues the bytes")
+	}
+}
+
+// dependsOn: v is computed from x within depth operand steps.
+func dependsOn(v, x ssa.Value, depth int) bool {
+	if v == x {
+		return true
+	}
+	if depth == 0 {
+		return false
+	}
+	if in, ok := v.(ssa.Instruction); ok {
+		for _, op := range in.Operands(nil) {
+			if *op != nil && dependsOn(*op, x, depth-1) {
+				return true
+			}
+		}
+	}
+	return false
+}
